@@ -3,6 +3,8 @@
 // The functions exercise each construct of the supported subset at least once.
 package sample
 
+import "math/bits"
+
 // ---- integers ----------------------------------------------------------------------------------
 
 func DivMod(a, b int) (int, int) { return a / b, a % b }
@@ -394,4 +396,59 @@ func SortWith(s []int, before func(int, int) bool, swaps int) int {
 func MinWith(s []int, before func(int, int) bool) (int, bool) {
 	b := Sorter[int]{data: s, before: before}
 	return b.Min()
+}
+
+// ---- [BitsCode] uint64 words: int(u >> c) / int(u & c), math/bits.OnesCountN, a struct literal as a return operand ----
+
+type Words struct {
+	w []uint64
+	n int
+}
+
+func WordIdx(n uint) (int, int, int, int) { return int(n >> 6), int(n & 63), int(n % 100), int(n / 2) }
+
+func Pop64(x uint64, y uint32) int {
+	return bits.OnesCount64(x)*10000 + bits.OnesCount32(y)*100 + bits.OnesCount8(uint8(x)) + bits.OnesCount(uint(y))*1000000
+}
+
+// SetBit grows the word list and sets a bit; returns a copy with the population count cached
+func (w *Words) SetBit(k uint) Words {
+	idx := int(k >> 6)
+	for idx >= len(w.w) {
+		w.w = append(w.w, 0)
+	}
+	w.w[idx] |= 1 << (k & 63)
+	s := make([]uint64, len(w.w))
+	copy(s, w.w)
+	c := 0
+	for _, v := range s {
+		c += bits.OnesCount64(v)
+	}
+	return Words{w: s, n: c}
+}
+
+func WordsScript(a, b uint64, k uint) (int, int, uint64, int) {
+	var w Words
+	w.w = append(w.w, a, b)
+	c := w.SetBit(k)
+	d := Words{n: 7}
+	return c.n, len(c.w) + len(d.w) + d.n, c.w[len(c.w)-1], len(w.w)
+}
+
+// ---- [BitsCode] named results: documentation-style (explicit return) and assigned + bare return ----
+
+func Locate(num uint) (index int, mask uint64) { return int(num >> 6), uint64(1) << (num & 63) }
+
+func NamedSum(s []int, limit int) (total int, clipped bool) {
+	for _, v := range s {
+		if total+v > limit {
+			clipped = true
+			return
+		}
+		total += v
+	}
+	if total < 0 {
+		return 0, true
+	}
+	return
 }
